@@ -141,8 +141,16 @@ func (e *Engine) verifyFunc(name, prop string, cfg solverCfg, verbose bool) *fun
 			}
 		}
 	}
+	primary := false
+	for _, o := range fr.Failed {
+		if o.Kind != "cover" {
+			primary = true
+		}
+	}
 	for _, l := range labelOrder {
-		if !labelOK[l] {
+		// an obligation that failed is assumed afterwards, which can make the rest of its path infeasible:
+		// unreachable events are only reported when nothing else failed in the function
+		if !labelOK[l] && !primary {
 			fr.Failed = append(fr.Failed, &Oblig{Name: name + "/vacuous:no feasible complete path through '" + l + "'", Func: name, Kind: "cover", Result: "unsat", Expect: "sat"})
 		}
 	}
@@ -242,6 +250,7 @@ func main() {
 	dump := fs.String("dump", "", "directory to dump failing queries")
 	out := fs.String("out", "/verif", "verif directory (evidence, replays, known findings)")
 	noReplay := fs.Bool("no-replay", false, "skip counterexample replay")
+	file := fs.String("file", "", "replay file (replay command)")
 	fs.Parse(os.Args[2:])
 	if t := os.Getenv("VERIF_TIER"); t != "" && cmd == "check" {
 		*tier = t
@@ -261,6 +270,8 @@ func main() {
 	}
 	e.loadSecs = time.Since(t0).Seconds()
 	switch cmd {
+	case "replay":
+		os.Exit(replayFile(*repo, *file))
 	case "list":
 		for _, p := range []string{*prop} {
 			for _, n := range e.functionsFor(p) {
